@@ -66,19 +66,25 @@ def vendorRm (rmv : List (Nat × Nat)) (inverted : Bool) (v : Bytes) : Bool × B
         let v' := v.take 4 ++ sub'
         ((decide (v'.length ≤ 4)) != inverted, v')
 
+/-- is type `t` named by the plain removal list (NULL list: no) -/
+def plainHit (rm : Option (List UInt8)) (t : UInt8) : Bool :=
+  match rm with | some l => strchrHit l t | none => false
+
+/-- the fate of one attribute in `dorewriterm`: `none` = removed, `some a'` = kept (a Vendor-Specific
+    attribute possibly with sub-attributes taken out) -/
+def rmOne (rm : Option (List UInt8)) (rmv : Option (List (Nat × Nat))) (inverted : Bool) (a : Tlv) : Option Tlv :=
+  if plainHit rm a.t then (if true != inverted then none else some a)
+  else
+    match rmv with
+    | some l =>
+      if a.t = 26 then
+        (if (vendorRm l inverted a.v).1 != inverted then none else some { a with v := (vendorRm l inverted a.v).2 })
+      else (if false != inverted then none else some a)
+    | none => (if false != inverted then none else some a)
+
 /-- `dorewriterm(msg, rmattrs, rmvattrs, inverted)` -/
 def rewriteRm (rm : Option (List UInt8)) (rmv : Option (List (Nat × Nat))) (inverted : Bool) (as : List Tlv) : List Tlv :=
-  as.filterMap fun a =>
-    let plainHit := match rm with | some l => strchrHit l a.t | none => false
-    if plainHit then (if true != inverted then none else some a)
-    else
-      match rmv with
-      | some l =>
-        if a.t = 26 then
-          let (whole, v') := vendorRm l inverted a.v
-          if whole != inverted then none else some { a with v := v' }
-        else (if false != inverted then none else some a)
-      | none => (if false != inverted then none else some a)
+  as.filterMap (rmOne rm rmv inverted)
 
 /-- substitution of `\1`..`\9` in the replacement text -/
 def subst (groups : List (Option (Nat × Nat))) (subj : Bytes) : Bytes → Bytes
@@ -134,19 +140,20 @@ def applyRules (f : ModRule → Bytes → Option Bytes) : List ModRule → Bytes
   | [], v => some v
   | r :: rs, v => match f r v with | none => none | some v' => applyRules f rs v'
 
+/-- what `dorewritemod` does to one attribute: `none` = a rule returned 0 -/
+def modOne (rx : RxOracle) (mods modvs : List ModRule) (a : Tlv) : Option Tlv :=
+  if a.t = 26 then
+    if a.v.length < 4 then some a
+    else
+      (applyRules (fun r v => if r.vendor = beVal (a.v.take 4) then modVAttr rx r v else some v) modvs a.v).map fun v => { a with v := v }
+  else
+    (applyRules (fun r v => if r.t = a.t then modAttr rx r v else some v) mods a.v).map fun v => { a with v := v }
+
 /-- `dorewritemod(msg, modattrs, modvattrs)`: `none` = 0 -/
 def rewriteMod (rx : RxOracle) (mods modvs : List ModRule) : List Tlv → Option (List Tlv)
   | [] => some []
   | a :: rest =>
-    let r : Option Tlv :=
-      if a.t = 26 then
-        if a.v.length < 4 then some a
-        else
-          let vendor := beVal (a.v.take 4)
-          (applyRules (fun r v => if r.vendor = vendor then modVAttr rx r v else some v) modvs a.v).map fun v => { a with v := v }
-      else
-        (applyRules (fun r v => if r.t = a.t then modAttr rx r v else some v) mods a.v).map fun v => { a with v := v }
-    match r with
+    match modOne rx mods modvs a with
     | none => none
     | some a' => (rewriteMod rx mods modvs rest).map (a' :: ·)
 
@@ -185,25 +192,35 @@ structure RwRes where
   attrs : List Tlv
 deriving DecidableEq, Repr
 
+def stageRm (r : Rewrite) (as : List Tlv) : List Tlv :=
+  if r.rmAttrs.isSome ∨ r.rmVAttrs.isSome then rewriteRm r.rmAttrs r.rmVAttrs r.whitelist as else as
+
 /-- `dorewritemod` mutates attributes in place up to the failing one; the message is dropped by
     every caller when rv = 0, so the partially rewritten list is never observable: we keep the
     input list in that case. -/
+def stageMod (rx : RxOracle) (r : Rewrite) (as : List Tlv) : Bool × List Tlv :=
+  if r.modAttrs.isSome ∨ r.modVAttrs.isSome then
+    match rewriteMod rx (r.modAttrs.getD []) (r.modVAttrs.getD []) as with
+    | some x => (true, x)
+    | none => (false, as)
+  else (true, as)
+
+def stageSup (r : Rewrite) (as : List Tlv) : Bool × List Tlv :=
+  match r.supAttrs with
+  | some sup => (match rewriteSup sup as with | some x => (true, x) | none => (false, as))
+  | none => (true, as)
+
+def stageAdd (r : Rewrite) (as : List Tlv) : List Tlv :=
+  match r.addAttrs with | some add => as ++ add | none => as
+
+/-- `dorewrite(msg, rewrite)`: remove → modify → supplement → add; a failing stage sets rv = 0
+    but the later stages still run -/
 def dorewrite (rx : RxOracle) (rw : Option Rewrite) (as : List Tlv) : RwRes :=
   match rw with
   | none => { ok := true, attrs := as }
   | some r =>
-    let as1 := if r.rmAttrs.isSome ∨ r.rmVAttrs.isSome then rewriteRm r.rmAttrs r.rmVAttrs r.whitelist as else as
-    let (ok2, as2) :=
-      if r.modAttrs.isSome ∨ r.modVAttrs.isSome then
-        match rewriteMod rx (r.modAttrs.getD []) (r.modVAttrs.getD []) as1 with
-        | some x => (true, x)
-        | none => (false, as1)
-      else (true, as1)
-    let (ok3, as3) :=
-      match r.supAttrs with
-      | some sup => (match rewriteSup sup as2 with | some x => (true, x) | none => (false, as2))
-      | none => (true, as2)
-    let as4 := match r.addAttrs with | some add => as3 ++ add | none => as3
-    { ok := ok2 && ok3, attrs := as4 }
+    let m := stageMod rx r (stageRm r as)
+    let s := stageSup r m.2
+    { ok := m.1 && s.1, attrs := stageAdd r s.2 }
 
 end Rsp.Rewrite
